@@ -80,9 +80,12 @@ def mro_names(e):
 
 class Obs(object):
     """what one request did"""
-    __slots__ = ('kind', 'code', 'exc', 'site', 'called', 'status', 'body', 'stage', 'faultstring')
+    __slots__ = ('kind', 'code', 'exc', 'site', 'called', 'status', 'body', 'stage', 'faultstring', 'fcls', 'mro')
 
-    def __init__(self, kind, code=None, exc=None, site=None, called=(), status=None, body=b'', stage=None, faultstring=None):
+    def __init__(self, kind, code=None, exc=None, site=None, called=(), status=None, body=b'', stage=None, faultstring=None,
+                 fcls=None, mro=None):
+        self.fcls = fcls          # class name of the fault object (ServerBase path)
+        self.mro = mro            # qualified class names of an escaped exception
         self.kind = kind          # 'ok' | 'fault' | 'crash'
         self.code = code          # fault code
         self.exc = exc            # exception class name
@@ -124,11 +127,13 @@ def drive_server(sv, which, proto, validator, body):
         err = ctx.in_error or ctx.out_error
         if err:
             return Obs('fault', code=getattr(err, 'faultcode', None), called=sv.calls, body=out,
-                       faultstring=str(getattr(err, 'faultstring', ''))[:200])
+                       faultstring=str(getattr(err, 'faultstring', ''))[:200],
+                       fcls='%s.%s' % (type(err).__module__, type(err).__qualname__))
         return Obs('ok', called=sv.calls, body=out)
     except Exception as e:
         exc, site = crash_site(e)
-        return Obs('crash', exc=exc, site=site, called=sv.calls, stage=stage)
+        return Obs('crash', exc=exc, site=site, called=sv.calls, stage=stage,
+                   mro=['%s.%s' % (c.__module__, c.__qualname__) for c in type(e).__mro__])
 
 
 def drive_wsgi(sv, which, proto, validator, body, method='POST', ctype='', path='/', qs='', extra=None, clen=True):
